@@ -125,6 +125,16 @@ CHECKS["C08"] = dict(
     parts=[rapid_part("rapid", "schema", "TestC08", 6000, 40000, race=True, replay_test="TestC08Replay", replay_reps=20)],
 )
 
+CHECKS["C14"] = dict(
+    technique="property-based testing (rapid) + native fuzzing of algebraic laws of chunk concatenation: totality, determinism, input immutability, re-chunking (prefix-then-rest == all-at-once), plus a small reference for text / tool-call merge",
+    level_text="Generated chunk lists (2-8 chunks) of chat messages with every field generated incl. absent/zero (role, name, tool call id, content, multi content, tool-call fragments with nil/0..2 index and partial id/type/name/arguments/extra, response meta with each sub-field nil or set, extras with string/int/float/bool/nil/typed-nil/nested-map/slice values), nil messages, message lists (sparse, equal and unequal lengths), strings, map[string]any, a struct with and one without registered concat function, ints; every split point. Checked through schema.ConcatMessages, schema.ConcatMessageStream and internal.ConcatItems: never a panic; two evaluations on equal inputs agree and leave the inputs untouched; concat(concat(prefix)::rest) equals concat(all) or both fail; on success Content and per-index Arguments are the in-order joins, un-indexed tool calls keep arrival order before indexed ones sorted by index.",
+    level_note="Pure functions: no schedule involved. Empty chunk lists are not generated (the stream drain handles them before concatenation).",
+    rule="rapid draws a chunk kind, 2-8 chunks and a split point (70% of message lists keep role/name/ids consistent so that concatenation succeeds); non-trivial = >= 3 chunks, split point strictly inside (prefix >= 2 chunks) and, for messages, tool-call fragments on >= 2 indices or a nested extra map; distinct = FNV-1a of case JSON",
+    assumptions=["reflect.DeepEqual on the resulting messages is the equality meant by 'same result'"],
+    parts=[rapid_part("rapid", "schema", "TestC14", 30000, 300000, replay_test="TestC14Replay"),
+           fuzz_part("fuzz", "schema", "FuzzC14", 90)],
+)
+
 # properties not claimed (with reason); everything else not in CHECKS is "not built yet"
 NOT_APPLICABLE = {}
 
